@@ -135,6 +135,8 @@ class _Conv:
 
     def conv(self, v):
         t = v[0]
+        if t == "subtemplate":
+            return v[1]
         if t == "const" and isinstance(v[1], str):
             return ("lit", v[1])
         if t == "field":
@@ -209,6 +211,17 @@ class _Conv:
                 fld = self.field_of(src)
                 kind = "elems"
             return [("each", fld, kind, self.elem_template(el))]
+        if s[0] == "lit" and s[1] in ("tuple", "list"):
+            # a literal sequence of strings, possibly with starred sequences
+            out = []
+            for x in s[2]:
+                if x[0] == "star":
+                    out.extend(self.seqparts(x[1]))
+                else:
+                    out.append(("one", self.conv(x)))
+            return out
+        if s[0] == "call" and s[1] in ("tuple", "list") and len(s[2]) == 1:
+            return self.seqparts(s[2][0])
         raise Unsupported(f"sequence part {s[0]}")
 
     def elem_template(self, el):
@@ -510,7 +523,7 @@ def _forced_of(model, mapper, ps):
     return forced
 
 
-def _extract_handler(model, mapper, n: NodeClass, mem, precs):
+def _extract_handler(model, mapper, n: NodeClass, mem, precs, _depth=0):
     variants = []
     for ps in handler_summaries(model, n, mem.node):
         if ps.term != "return":
@@ -546,10 +559,50 @@ def _extract_handler(model, mapper, n: NodeClass, mem, precs):
                 variants.append(Variant(tuple(conds) + tuple(sub.conds),
                                         sub.template))
             continue
+        subcalls = [x for x in _walk_vals(rv) if x[0] == "call"
+                    and x[1].startswith("self.map_") and x[2][:1] == (NODE,)
+                    and x[1] != "self." + mem.node.name]
+        if subcalls:
+            # another handler of the same mapper applied to the same node
+            # (map_floor_div written in terms of map_quotient): its variants,
+            # rendered at the precedence it is handed
+            if len(subcalls) != 1 or _depth > 3:
+                raise Unsupported("several sibling-handler calls")
+            sc = subcalls[0]
+            mem2 = model.lookup(mapper, sc[1][len("self."):])
+            if mem2 is None or mem2.kind != "func":
+                raise Unsupported(f"{sc[1]}: no such handler")
+            p2 = _prec_value(sc[2][1], precs) if len(sc[2]) > 1 else 0
+            for sub in _extract_handler(model, mapper, n, mem2, precs,
+                                        _depth + 1):
+                if any(c[0].startswith("prec") for c in sub.conds):
+                    raise Unsupported("sibling handler branches on precedence")
+                tmpl = conv.conv(_subst_val(
+                    rv, sc, ("subtemplate", ("with_prec", sub.template, p2))))
+                variants.append(Variant(tuple(conds) + tuple(sub.conds), tmpl))
+            continue
         variants.append(Variant(tuple(conds), conv.conv(rv)))
     if not variants:
         raise Unsupported("no returning path")
     return variants
+
+
+def _walk_vals(v, depth=0):
+    if not isinstance(v, tuple) or depth > 30:
+        return
+    if v and isinstance(v[0], str):
+        yield v
+    for x in v:
+        if isinstance(x, tuple):
+            yield from _walk_vals(x, depth + 1)
+
+
+def _subst_val(v, old, new):
+    if v is old or v == old:
+        return new
+    if isinstance(v, tuple):
+        return tuple(_subst_val(x, old, new) for x in v)
+    return v
 
 
 def _extract_plain(model, mapper, mem, precs):
@@ -798,6 +851,9 @@ class ModelPrinter:
         if k == "joinseq":
             out = []
             for part in t[2]:
+                if part[0] == "one":
+                    out.append(self.render(part[1], tree, prec))
+                    continue
                 _, fld, kind, et = part
                 src = self.get(tree, fld)
                 if fld == "@self":
@@ -807,6 +863,8 @@ class ModelPrinter:
             return t[1].join(out)
         if k == "cat":
             return "".join(self.render(x, tree, prec) for x in t[1])
+        if k == "with_prec":
+            return self.render(t[1], tree, t[2] if t[2] != "ENCLOSING" else prec)
         if k == "paren_if":
             s = self.render(t[1], tree, prec)
             return f"({s})" if self.needs_paren(prec, t[2]) else s
